@@ -1114,11 +1114,18 @@ func (g *FnGen) nextInstr(i *ssa.Next) {
 	// number of iterations is len(m)
 	if g.mode == "int" {
 		ch := g.heapGet(g.cur, rs.cnt, "(Array Int Int)")
-		unmodified := false
+		unmodified, isHeader := false, false
 		for _, li := range g.loops {
-			if li.header == i.Block() && li.mod != nil && !li.modAll && !li.mod[pf] {
-				unmodified = true
+			if li.header == i.Block() {
+				isHeader = true
+				if li.mod != nil && !li.modAll && !li.mod[pf] {
+					unmodified = true
+				}
 			}
+		}
+		if !isHeader {
+			// `for k := range m { ...; break }`: no back edge, this is the first and only Next of the range
+			unmodified = true
 		}
 		if unmodified {
 			g.assumeHere(fmt.Sprintf("(=> (not %s) (= (select %s 0) %s))", ok, ch, rs.len0))
